@@ -241,7 +241,7 @@ func randSerial(r Rand) *big.Int {
 	// mostly 20 bytes as Intel issues them; one in four shorter (a leading zero byte, or a short serial):
 	// serial numbers are integers, not fixed-width strings
 	if r.Chance(1, 4) {
-		b = b[[]int{1, 1, 4, 12, 17, 19}[r.Draw(6)]:]
+		b = b[[]int{1, 1, 4, 8, 12, 12}[r.Draw(6)]:] // 19, 16, 12 or 8 bytes: short enough to differ in length, long enough not to collide
 		b[0] |= 0x01
 	}
 	return new(big.Int).SetBytes(b)
